@@ -34,7 +34,8 @@ Cl_ArrheniusLaw == (E.ev = "Query") => M!ArrheniusLaw(Exps, E.T, E.p, E.ea)
 Cl_Regression   == (E.ev = "Query") =>
                      /\ ME!RegressionLaw(Exps, E.ea, FMax(FAbs(E.ea.v), Lit("1000.0")))
                      /\ (Len(Exps) < 2 => (E.ea.raise <=> ~Exps[1].hasEa))
-                     /\ (Len(Exps) < 2 /\ Exps[1].hasEa => E.ea.v = Exps[1].Ea)
+                     \* (through the CSV loader a number may come back one ulp off: pandas' fast float parser)
+                     /\ (Len(Exps) < 2 /\ Exps[1].hasEa => FCloseS(E.ea.v, Exps[1].Ea, Exps[1].Ea, Lit("1e-12")))
 \* experiments exactly on an Arrhenius line: Ea recovered, permeance on the line whichever experiment is nearest
 Cl_RecoversEa   == (E.ev = "Query" /\ O.online /\ Len(Exps) >= 2) =>
                      EqE(E.ea.v, TrueEa, FMax(FAbs(TrueEa), Lit("1000.0")))
